@@ -363,3 +363,54 @@ def events_key(sim):
     for e in sim.event_history:
         out.append((e.event_type, e.timestamp, getattr(getattr(e, "ev", None), "session_id", None)))
     return out
+
+
+# ----------------------------------------------------------------------------
+# owned nondeterminism: battery noise (numpy.random.normal inside battery.py only)
+# ----------------------------------------------------------------------------
+class _Rand:
+    def __init__(self, chooser):
+        self._chooser = chooser
+
+    def normal(self, loc=0.0, scale=1.0, size=None):
+        return loc + scale * self._chooser()
+
+    def __getattr__(self, name):  # anything else would be un-owned randomness
+        raise AttributeError("un-owned numpy.random.%s used by battery model" % name)
+
+
+class _NPShim:
+    def __init__(self, chooser):
+        self.random = _Rand(chooser)
+
+    def __getattr__(self, name):
+        return getattr(np, name)
+
+
+class owned_noise:
+    """with owned_noise(chooser): battery.py's `np.random.normal(0, s)` returns s*chooser()"""
+
+    def __init__(self, chooser):
+        self.chooser = chooser
+
+    def __enter__(self):
+        from acnportal.acnsim.models import battery as _b
+
+        self._b = _b
+        self._old = _b.np
+        _b.np = _NPShim(self.chooser)
+        return self
+
+    def __exit__(self, *a):
+        self._b.np = self._old
+
+
+def cyclic(pattern):
+    state = {"i": 0}
+
+    def ch():
+        v = pattern[state["i"] % len(pattern)]
+        state["i"] += 1
+        return v
+
+    return ch
